@@ -1,6 +1,5 @@
 from collections.abc import MutableMapping
 from urllib.parse import urlsplit
-import itertools
 import json
 import pkgutil
 import re
@@ -161,7 +160,19 @@ def ensure_list(thing):
 def equal(one, two):
     """
     Check if two things are equal, but evade booleans and ints being equal.
+
+    Arrays and objects are compared element by element, so that the
+    evasion applies at every nesting depth.
     """
+    if isinstance(one, list) and isinstance(two, list):
+        return len(one) == len(two) and all(
+            equal(i, j) for i, j in zip(one, two)
+        )
+    if isinstance(one, dict) and isinstance(two, dict):
+        return len(one) == len(two) and all(
+            key in two and equal(value, two[key])
+            for key, value in one.items()
+        )
     return unbool(one) == unbool(two)
 
 
@@ -181,25 +192,18 @@ def uniq(container):
     """
     Check if all of a container's elements are unique.
 
-    Successively tries first to rely that the elements are hashable, then
-    falls back on them being sortable, and finally falls back on brute
-    force.
+    Tries first to rely that the elements are hashable, then falls back
+    on brute force. (Sorting cannot be used: the ordering of Python
+    values identifies ``True`` with ``1`` and ``False`` with ``0`` inside
+    nested arrays, so equal neighbours need not be adjacent.)
     """
 
     try:
         return len(set(unbool(i) for i in container)) == len(container)
     except TypeError:
-        try:
-            sort = sorted(unbool(i) for i in container)
-            sliced = itertools.islice(sort, 1, None)
-            for i, j in zip(sort, sliced):
-                if i == j:
-                    return False
-        except (NotImplementedError, TypeError):
-            seen = []
-            for e in container:
-                e = unbool(e)
-                if e in seen:
-                    return False
-                seen.append(e)
+        seen = []
+        for e in container:
+            if any(equal(e, i) for i in seen):
+                return False
+            seen.append(e)
     return True
